@@ -82,9 +82,14 @@ static Plan gen_shape(u64 seed) {
         int n = 1 + (r.chance(1, 3) ? int(r.below(3)) : 0);
         for (int i = 0; i < n; ++i) {
             Fault f;
-            for (int t = 0; t < 10; ++t) { f = gen_store_fault(r, *fi); if (f.kind == "BITROT" || f.kind == "SETBYTES" || f.kind == "TORN" || (f.kind == "TRUNCATE" && r.chance(1, 4))) break; }
-            if (!(f.kind == "BITROT" || f.kind == "SETBYTES" || f.kind == "TORN" || f.kind == "TRUNCATE")) continue;
-            if (r.chance(7, 10)) f.nth = -1;
+            u32 sel = r.below(100);
+            if (sel < 35) { f = gen_code_fault(r, *fi); if (f.a.empty()) sel = 100; }
+            else if (sel < 45) { f = gen_loop_fault(r, *fi); if (f.a.empty()) sel = 100; }
+            if (sel >= 45) {
+                for (int t = 0; t < 10; ++t) { f = gen_store_fault(r, *fi); if (f.kind == "BITROT" || f.kind == "SETBYTES" || f.kind == "TORN" || (f.kind == "TRUNCATE" && r.chance(1, 4))) break; }
+                if (!(f.kind == "BITROT" || f.kind == "SETBYTES" || f.kind == "TORN" || f.kind == "TRUNCATE")) continue;
+                if (r.chance(7, 10)) f.nth = -1;
+            }
             mf.faults.push_back(f);
         }
     }
@@ -159,14 +164,20 @@ static Plan gen_hist(u64 seed) {
     std::string font = gen_font(r);
     const FontImage *fi = g_corpus.find(font);
     Op mf = gen_make_face(r, font, 55, true, false);
-    if (g_tier && r.chance(15, 100)) {   // rotten-but-accepted programs: twin sees the same bytes
-        Fault f; for (int t = 0; t < 10; ++t) { f = gen_store_fault(r, *fi); if (f.kind == "BITROT" || f.kind == "SETBYTES") break; }
-        if (f.kind == "BITROT" || f.kind == "SETBYTES") { f.nth = -1; mf.faults.push_back(f); }
+    if (r.chance(20, 100)) {   // rotten-but-accepted fonts (the twin sees the same bytes): lazily failing glyph reads, odd programs
+        Fault f;
+        if (r.chance(1, 2)) {    // glyph data: a glyph that fails to load lazily, again and again
+            static const char *gt[] = {"glyf", "loca", "hmtx", "Glat", "Gloc"};
+            for (int t = 0; t < 20; ++t) { f = gen_store_fault(r, *fi); bool ok = false; for (auto *g : gt) if (f.tag == g) ok = true; if (ok && (f.kind == "BITROT" || f.kind == "SETBYTES" || f.kind == "TORN")) break; f.kind.clear(); }
+        } else if (r.chance(1, 2)) f = gen_code_fault(r, *fi);
+        else { for (int t = 0; t < 10; ++t) { f = gen_store_fault(r, *fi); if (f.kind == "BITROT" || f.kind == "SETBYTES") break; f.kind.clear(); } }
+        if (!f.kind.empty() && !(f.kind == "CODEROT" && f.a.empty())) { f.nth = -1; mf.faults.push_back(f); }
     }
     p.ops.push_back(mf);
     Op rep = mk("face_query", {0, 9, 0}); rep.s = "report"; p.ops.push_back(rep);
     gen_history(r, font, p.ops, r.below(g_tier ? 41 : 25), 1, true);
     Op pr = gen_probe(r, font, text_max(r)); pr.s = "probe";
+    if (r.chance(1, 2)) { std::vector<const Op *> withtext; for (auto &o : p.ops) if (!o.text.empty() && (o.kind == "make_seg" || o.kind == "probe_seg")) withtext.push_back(&o); if (!withtext.empty()) pr.text = withtext[r.below(u32(withtext.size()))]->text; }
     p.ops.push_back(pr); p.ops.push_back(pr); p.ops.push_back(rep);
     return p;
 }
